@@ -693,6 +693,31 @@ theorem connect_bytes_interpreted (tbl : V6Tbl) (t : Addr) (ch bs : Bytes) (req 
       Http.interpret tbl got = .tcp t :=
   ⟨req, request_roundtrip req rest w fuel hok hf, connect_tcp_interpreted tbl t ch bs req hrt hreq⟩
 
+/-- the same for UDP over CONNECT: bytes written by `h11c_connect` for a UDP association are read and interpreted as a UDP
+association to exactly that destination, with the channel kind asked for -/
+theorem connect_udp_bytes_interpreted (tbl : V6Tbl) (t : Addr) (ch bs : Bytes) (req : Http.Req) (rest : Bytes) (w : W)
+    (fuel : Nat) (hrt : Addr.parse tbl (t.toText tbl) = some t)
+    (hreq : Http.connectRequest tbl t .udpForward ch bs = some req) (hok : ReqOk req) (hf : req.headers.length < fuel) :
+    ∃ got, runFlat (Http.readRequest fuel) (reqBytes req ++ rest) w = (.ok got, rest, w) ∧
+      Http.interpret tbl got =
+        .udp t (Http.eqIgnoreCase (if ch = [] then strBytes "inline" else ch) (strBytes "inline")) [] :=
+  ⟨req, request_roundtrip req rest w fuel hok hf, connect_udp_interpreted tbl t ch bs req hrt hreq⟩
+
+/-- a failure status from the upstream is never taken for success, whatever else the head says: with any code other
+than 200 the exchange fails for every feature (TCP and both UDP modes) -/
+theorem connect_exchange_non200_fails (tbl : V6Tbl) (t : Addr) (f : Http.Feature) (ch bs : Bytes) (req : Http.Req)
+    (r : Http.Resp) (rest : Bytes) (w : W) (fuel : Nat)
+    (hreq : Http.connectRequest tbl t f ch bs = some req) (hok : RespOk r) (hf : r.headers.length < fuel)
+    (hc : r.code ≠ 200) :
+    (runFlat (Http.connectExchange tbl t f ch bs fuel) (respBytes r ++ rest) w).1 = .err "upstream server failure" := by
+  obtain ⟨w', hw'⟩ : ∃ w', runFlat (Http.writeRequest req) (respBytes r ++ rest) w = (.ok (), respBytes r ++ rest, w') := by
+    simp [Http.writeRequest, runFlat_bind, headerLines_writes]
+  have hr := response_roundtrip r rest w' fuel hok hf
+  unfold Http.connectExchange
+  rw [hreq]
+  simp only [runFlat_bind, hw', hr]
+  simp [hc]
+
 -- non-vacuity: the request `h11c_connect` composes for "a.b:443" meets `ReqOk` ("CONNECT a.b:443 HTTP/1.1", Host header)
 example : Http.connectRequest [] (.domain [97,46,98] 443) .tcp [] [] =
     some { method := [67,79,78,78,69,67,84], resource := [97,46,98,58,52,52,51], version := [72,84,84,80,47,49,46,49],
